@@ -462,12 +462,9 @@ func (ex *Exec) runPath(h *ssa.Function) (end string) {
 		if len(cands) == 0 {
 			// time passes: fire the oldest pending timer
 			fired := false
-			for _, tm := range ex.timers {
-				if !tm.timerFired && !tm.timerStopped {
-					ex.fireTimer(tm)
-					fired = true
-					break
-				}
+			if tm := ex.nextTimer(); tm != nil {
+				ex.fireTimer(tm)
+				fired = true
 			}
 			if fired {
 				for _, t := range ex.threads {
@@ -527,6 +524,7 @@ type ChanObj struct {
 	timer        bool
 	timerFired   bool
 	timerStopped bool
+	timerDur     *Term // requested duration (ns) of a timer channel
 }
 
 type selState struct {
@@ -567,7 +565,28 @@ func (ex *Exec) newChan(et types.Type, capacity int) *ChanObj {
 	return &ChanObj{ID: ex.objN, ET: et, Cap: capacity}
 }
 
+// nextTimer picks the timer that fires when time passes: the oldest armed timer somebody is waiting
+// on; if nobody waits on any, the oldest armed timer (timers abandoned by their creator never matter).
+func (ex *Exec) nextTimer() *ChanObj {
+	var first *ChanObj
+	for _, tm := range ex.timers {
+		if tm.timerFired || tm.timerStopped {
+			continue
+		}
+		if liveWaiter(&tm.recvq) != nil {
+			return tm
+		}
+		if first == nil {
+			first = tm
+		}
+	}
+	return first
+}
+
 func (ex *Exec) fireTimer(ch *ChanObj) {
+	if traceCalls {
+		fmt.Fprintf(os.Stderr, "fire timer chan#%d (waiter=%v) of %d timers\n", ch.ID, liveWaiter(&ch.recvq) != nil, len(ex.timers))
+	}
 	ch.timerFired = true
 	v := zeroValue(ch.ET)
 	if w := liveWaiter(&ch.recvq); w != nil {
